@@ -111,3 +111,15 @@ def UT():
     except Exception as e:
         return f"rejected: {type(e).__name__}"
 print("two IndicatorResourceUtilization(w): expected second rejected, got", quiet(UT))
+import processscheduler as ps, io, contextlib
+def quiet(f):
+    with contextlib.redirect_stdout(io.StringIO()):
+        return f()
+def QF(b1, b2, t1, t2):
+    pb = ps.SchedulingProblem(name="qf", horizon=10)
+    ta = ps.FixedDurationTask(name=t1, duration=2); tb = ps.FixedDurationTask(name=t2, duration=2)
+    ps.TaskStartAt(task=ta, value=1); ps.TaskStartAt(task=tb, value=5)
+    ba = ps.ConcurrentBuffer(name=b1, initial_level=10); bb = ps.ConcurrentBuffer(name=b2, initial_level=10)
+    ps.TaskUnloadBuffer(task=ta, buffer=ba, quantity=3); ps.TaskUnloadBuffer(task=tb, buffer=bb, quantity=4)
+    return bool(ps.SchedulingSolver(problem=pb).solve())
+print("quantity functions: names (B1,B2,t1,t2):", quiet(lambda: QF("B1","B2","t1","t2")), "| names (B,B_x,x_t,t):", quiet(lambda: QF("B","B_x","x_t","t")), "(expected True both)")
